@@ -71,58 +71,109 @@ def _run(cmd, timeout):
     return verdict, out, err, dt
 
 
-def solve_text(txt, budget=10.0, want_model=False, tag='q', solvers=('z3', 'cvc5'), confirm_sat=False):
-    """Run the query on z3 (subprocess), then cvc5 on unknown.
+def _cmd(sv, path, cpath, budget, want_model):
+    if sv == 'z3':
+        return [Z3_BIN, '-T:%d' % max(1, int(budget)), 'model.completion=true', path]
+    if sv == 'z3old':
+        return [Z3_OLD, '-T:%d' % max(1, int(budget)), path]
+    cmd = [CVC5_BIN, '--strings-exp', '--tlimit=%d' % int(budget * 1000)]
+    if want_model:
+        cmd += ['--produce-models']
+    return cmd + [cpath]
 
-    returns dict(verdict, backend, seconds, outputs{backend: text})
+
+def _verdict(out):
+    first = out.strip().split('\n', 1)[0].strip() if out.strip() else ''
+    return first if first in ('sat', 'unsat') else 'unknown'
+
+
+def solve_text(txt, budget=10.0, want_model=False, tag='q', solvers=('z3', 'cvc5'), confirm_sat=False):
+    """Race the solvers (separate OS processes, hard kill at the budget); first decisive answer wins.
+    A z3 `sat` on a proof obligation (confirm_sat) only counts when cvc5 agrees: z3 5.1/4.8 were
+    measured to answer `sat` with a non-model on nested sequences ((Seq String), seq.nth).
+
+    returns dict(verdict in unsat|sat|sat?|unknown, backend, seconds, outputs{backend: text})
     """
     h = hashlib.sha1(txt.encode()).hexdigest()[:12]
-    path = os.path.join(workdir(), '%s-%s.smt2' % (re.sub(r'[^A-Za-z0-9_.-]', '_', tag)[:80], h))
+    base = os.path.join(workdir(), '%s-%s' % (re.sub(r'[^A-Za-z0-9_.-]', '_', tag)[:80], h))
+    path = base + '.smt2'
+    cpath = base + '.cvc5.smt2'
     with open(path, 'w') as f:
         f.write(txt)
+    if 'cvc5' in solvers:
+        # cvc5 1.0 spells the Int<->BV conversions differently from z3 5.x
+        with open(cpath, 'w') as f:
+            f.write(txt.replace('(_ int_to_bv ', '(_ int2bv ').replace('ubv_to_int', 'bv2nat'))
     res = {'verdict': 'unknown', 'backend': None, 'seconds': 0.0, 'outputs': {}, 'file': path}
+    t0 = time.time()
+    procs = {}
     for sv in solvers:
-        if sv == 'z3':
-            cmd = [Z3_BIN, '-T:%d' % max(1, int(budget)), 'model.completion=true', path]
-        elif sv == 'z3old':
-            cmd = [Z3_OLD, '-T:%d' % max(1, int(budget)), path]
-        else:
-            cmd = [CVC5_BIN, '--strings-exp', '--tlimit=%d' % int(budget * 1000)]
-            if want_model:
-                cmd += ['--produce-models']
-            cmd += [path]
-        verdict, out, err, dt = _run(cmd, budget + 5)
-        res['seconds'] += dt
-        res['outputs'][sv] = (out[-4000:] + ('\n[stderr] ' + err[-500:] if err.strip() else ''))
-        if verdict == 'sat' and sv.startswith('z3') and confirm_sat and 'cvc5' in solvers:
-            # z3 5.1/4.8 were measured to answer `sat` with a non-model on nested sequences
-            # ((Seq String), seq.nth): a z3 `sat` on a proof obligation must be confirmed by cvc5.
-            res['z3_model_text'] = out.split('\n', 1)[1] if '\n' in out else ''
-            res['z3_sat_unconfirmed'] = True
-            continue
-        if verdict in ('sat', 'unsat'):
-            res['verdict'] = verdict
-            res['backend'] = sv
-            res['model_text'] = out.split('\n', 1)[1] if '\n' in out else ''
-            if verdict == 'unsat' and res.get('z3_sat_unconfirmed'):
-                res['backend'] = 'cvc5 (z3 sat overruled)'
-            break
-    if res['verdict'] == 'unknown' and res.get('z3_sat_unconfirmed'):
-        res['verdict'] = 'sat?'
-        res['backend'] = 'z3 (unconfirmed)'
-        res['model_text'] = res.get('z3_model_text', '')
+        procs[sv] = subprocess.Popen(_cmd(sv, path, cpath, budget, want_model), stdout=subprocess.PIPE,
+                                     stderr=subprocess.PIPE, text=True)
+    done = {}
+    z3sat = None
+    deadline = t0 + budget + 5
     try:
-        os.unlink(path)
-    except OSError:
-        pass
+        while procs and time.time() < deadline:
+            for sv, p in list(procs.items()):
+                if p.poll() is None:
+                    continue
+                out, err = p.communicate()
+                del procs[sv]
+                v = _verdict(out)
+                done[sv] = v
+                res['outputs'][sv] = out[-4000:] + ('\n[stderr] ' + err[-300:] if err.strip() else '')
+                model = out.split('\n', 1)[1] if '\n' in out else ''
+                if v == 'unsat':
+                    res.update(verdict='unsat', backend=sv, model_text='')
+                    if z3sat is not None:
+                        res['backend'] = 'cvc5 (z3 sat overruled)'
+                    procs_kill(procs)
+                    procs = {}
+                    break
+                if v == 'sat':
+                    if sv.startswith('z3') and confirm_sat and 'cvc5' in solvers:
+                        z3sat = model
+                        if 'cvc5' in done:      # cvc5 already gave up
+                            res.update(verdict='sat?', backend='z3 (unconfirmed)', model_text=model)
+                        continue
+                    res.update(verdict='sat', backend=sv, model_text=model)
+                    procs_kill(procs)
+                    procs = {}
+                    break
+            else:
+                if procs:
+                    time.sleep(0.01)
+                continue
+            break
+    finally:
+        procs_kill(procs)
+    if res['verdict'] == 'unknown' and z3sat is not None:
+        res.update(verdict='sat?', backend='z3 (unconfirmed)', model_text=z3sat)
+    res['seconds'] = time.time() - t0
+    for pth in (path, cpath):
+        try:
+            os.unlink(pth)
+        except OSError:
+            pass
     return res
+
+
+def procs_kill(procs):
+    for p in procs.values():
+        try:
+            p.kill()
+            p.communicate(timeout=2)
+        except Exception:
+            pass
 
 
 def solve_many(jobs, budget=10.0, workers=None, solvers=('z3', 'cvc5')):
     """jobs: list of (tag, smt2_text, want_model, confirm_sat).  Returns list of results in order."""
-    workers = workers or min(16, (os.cpu_count() or 4))
+    workers = workers or max(2, min(16, (os.cpu_count() or 4)) // 2)
     with ThreadPoolExecutor(max_workers=workers) as ex:
-        futs = [ex.submit(solve_text, txt, budget, wm, tag, solvers, cs) for (tag, txt, wm, cs) in jobs]
+        futs = [ex.submit(solve_text, txt, budget if cs else max(3.0, budget / 5.0), wm, tag, solvers, cs)
+                for (tag, txt, wm, cs) in jobs]
         return [f.result() for f in futs]
 
 
